@@ -5,10 +5,10 @@ is NOT encoded.  Decided instead, per entry point, by dynamic frame-condition ch
 storage, memory allocated during the call, or the stack."""
 REPLAYABLE = False  # stubs / instrumented program: counterexamples are reported from the solver trace, not re-linked against gcc
 BOUNDS = {
- "quick": "thread-safe configuration (ENABLE_MMC=0, ENABLE_MZD_CACHE=0); entry points: add, naive / M4RM / Strassen-front-end products, transpose (shapes hitting the <=8, <=16, <=32, <64 and 64-block kernels), M4RI / PLUQ echelonisation, PLUQ, four TRSMs, solve, kernel, inversion + trtri, init/window/free + permutations + copy; concrete operand contents (the frame condition quantifies over writes, not data)",
- "thorough": "same entry points at larger shapes (Four-Russians TRSM, tables with k up to 5)",
+ "quick": "thread-safe configuration (ENABLE_MMC=0, ENABLE_MZD_CACHE=0); entry points: add (incl. wide rows), naive products (both routes), transpose (shapes hitting the <=8, <=16, <=32, <64 kernels), four TRSMs, solve (PLUQ, permutations, TRSM, addmul inside); concrete operand contents (the frame condition quantifies over writes, not data)",
+ "thorough": "adds 64-block transposes, kernel, inversion + trtri, PLUQ echelonisation, PLUQ (long timeouts; inconclusive if they do not finish)",
 }
-OUTSIDE = "interleavings themselves; thread-safety of libc malloc/free (assumed); writes that CBMC's instrumentation cannot see (inline asm); reads of the immutable code books are allowed by construction (the frame condition is about writes)"
+OUTSIDE = "M4RM / Strassen front end / M4RI elimination entry points (dfcc instrumentation reports an unconfirmed pointer problem there, DESIGN 9.2); interleavings themselves; thread-safety of libc malloc/free (assumed); writes that CBMC's instrumentation cannot see (inline asm); reads of the immutable code books are allowed by construction (the frame condition is about writes)"
 ASSUMPTIONS = ["malloc/free are thread-safe", "m4ri_codebook is written only by the library constructor before threads start (no scenario writes it: it is not in the assigns clause)",
                "data-race freedom on disjoint operands follows from: all writes go to operand storage / call-local allocations / stack (proved here within the bounds)"]
 
@@ -22,16 +22,18 @@ def plan(tier, seed):
         qs.append(Q("frame-s%d%s" % (sc, tag), "c15.c", d, cfg="ts", group="c15-s%d" % sc, dfcc="scen", timeout=to, fallback="kissat", mem_gb=12))
     D(0, (3, 70, 3, 70, 3, 70)); D(0, (2, 577, 2, 577, 2, 577), "-wide")
     D(1, (3, 5, 5, 3, 3, 3)); D(1, (2, 5, 5, 70, 2, 70), "-va")
-    D(2, (16, 9, 9, 54, 16, 54), to=2400)
-    D(3, (16, 9, 9, 54, 16, 54), to=2400)
-    for (m, n) in [(5, 70), (7, 8), (12, 15), (20, 27), (40, 45), (64, 64), (70, 66)]:
+    for (m, n) in [(5, 70), (7, 8), (12, 15), (20, 27), (40, 45)]:
         D(4, (m, n, 1, 1, n, m), "-%dx%d" % (m, n))
-    D(5, (6, 70, 1, 1, 1, 1)); D(6, (6, 70, 1, 1, 1, 1)); D(7, (6, 70, 1, 1, 1, 1))
     D(8, (5, 5, 5, 70, 1, 1), unit=True); D(9, (5, 5, 1, 1, 3, 5), unit=True)
-    D(10, (3, 5, 5, 2, 1, 1)); D(11, (3, 70, 1, 1, 1, 1))
-    D(12, (5, 5, 1, 1, 1, 1), unit=True, pat=4)
-    D(13, (4, 70, 1, 1, 4, 70))
+    D(10, (3, 5, 5, 2, 1, 1))   # solve: PLUQ (PLE Four-Russians base case, tables), permutations, TRSM, addmul
     if T:
-        D(8, (70, 70, 70, 70, 1, 1), "-russian", unit=True, to=3000)
-        D(5, (12, 134, 1, 1, 1, 1), "-12x134", to=3000)
+        # measured: no verdict in 240 s (quick budget) - larger transposes, kernel, inversion
+        for (m, n) in [(64, 64), (70, 66)]:
+            D(4, (m, n, 1, 1, n, m), "-%dx%d" % (m, n), to=3000)
+        D(11, (3, 70, 1, 1, 1, 1), to=3000); D(12, (5, 5, 1, 1, 1, 1), unit=True, pat=4, to=3000)
+        D(6, (6, 70, 1, 1, 1, 1), to=3000); D(7, (6, 70, 1, 1, 1, 1), to=3000)
+    # NOT run (see DESIGN 9.2): scenarios 2, 3, 5, 13 (M4RM product, Strassen front end, M4RI elimination,
+    # permutations+copy). goto-instrument --dfcc reports "ptr NULL or writable up to size" for a write in
+    # mzd_make_table through a pointer that the functional checks (C01/C02, all pointer checks on) show
+    # to be in bounds; the instrumented program is not trusted for these scenarios and they are not claimed.
     return qs
